@@ -585,6 +585,10 @@ inductive Expr (K D : Type) where
   | invEnabler (a : Expr K D)
   | block (dom : Nat) (subdoms : List Nat) (ents : List (Expr K D))
   | missing
+  /-- `SumOperator.make(ops, neg)` called directly with any number of operands -/
+  | sumN (args : List (Expr K D)) (neg : List Bool)
+  /-- `ChainOperator.make(ops)` called directly with any number of operands -/
+  | chainN (args : List (Expr K D))
 deriving Inhabited
 
 def isMissing : Expr K D → Bool | .missing => true | _ => false
@@ -649,6 +653,14 @@ def build : Expr K D → Except String (Op K D)
     | .ok es => mkBlock dm sd es
     | .error e => .error e
   | .missing => .error "bad-script"
+  | .sumN args neg =>
+    match seqExcept (args.map fun e => build e) with
+    | .ok xs => mkSum S xs neg
+    | .error e => .error e
+  | .chainN args =>
+    match seqExcept (args.map fun e => build e) with
+    | .ok xs => mkChain S xs
+    | .error e => .error e
 
 end buildExpr
 
@@ -665,10 +677,32 @@ def sumRooted : Expr K D → Bool
   | .adjoint a => sumRooted a
   | _ => false
 
+/-- the property's rule at script level: mode `s` of the script is provided by its constituents (an InversionEnabler provides a
+    mode if its operand provides it or the inverse-flipped one) -/
+def reqE : Expr K D → Nat → Bool
+  | .leaf _ c _ _, s => (c &&& (1 <<< s)) != 0
+  | .scaling _ _ _, _ => true
+  | .diag _ _ _, _ => true
+  | .null _ _, s => (s &&& 2) == 0
+  | .add a b, s => ((s &&& 2) == 0) && reqE a s && reqE b s
+  | .sub a b, s => ((s &&& 2) == 0) && reqE a s && reqE b s
+  | .matmul a b, s => reqE a s && reqE b s
+  | .adjoint a, s => reqE a (s ^^^ 1)
+  | .inverse a, s => reqE a (s ^^^ 2)
+  | .neg a, s => reqE a s
+  | .scale a _, s => reqE a s
+  | .sandwich bun ch _, s => reqE bun (s ^^^ 1) && reqE ch s && reqE bun s
+  | .sandwichNone bun _, s => reqE bun (s ^^^ 1) && reqE bun s
+  | .invEnabler a, s => reqE a s || reqE a (s ^^^ 2)
+  | .sumN args _, s => ((s &&& 2) == 0) && (args.map (reqE · s)).all id
+  | .chainN args, s => (args.map (reqE · s)).all id
+  | _, _ => false
+
 section covered
 variable (S : Sem K D R)
 
-/-- scripts covered by `tree_sound`: no block-diagonal operators, no InversionEnabler; `.adjoint` (and a sandwich bun) of an
+/-- scripts covered by `tree_sound`: no block-diagonal operators; an InversionEnabler only around an operand whose advertised
+    capability is exactly what its script provides; `.adjoint` (and a sandwich bun) of an
     operator that *is* a SumOperator must syntactically be a sum; the cheese of a sandwich is not itself a SandwichOperator -/
 def treeOK : Expr K D → Bool
   | .leaf _ _ _ _ => true
@@ -686,6 +720,13 @@ def treeOK : Expr K D → Bool
       (match build S bun with | .ok x => !isSumOp x || sumRooted bun | .error _ => true) &&
       (match build S ch with | .ok c => !isSandwichOp c | .error _ => true)
   | .sandwichNone bun _ => treeOK bun && (match build S bun with | .ok x => !isSumOp x || sumRooted bun | .error _ => true)
+  | .invEnabler a => treeOK a &&
+      -- the operand advertises exactly the modes its script provides (simplification has not widened the capability)
+      (match build S a with
+       | .ok x => (List.range 4).all (fun s => (((cap x) &&& (1 <<< s)) != 0) == reqE a s)
+       | .error _ => true)
+  | .sumN args _ => (args.map treeOK).all id
+  | .chainN args => (args.map treeOK).all id
   | _ => false
 
 end covered
